@@ -8,11 +8,11 @@ Rec == ndJsonDeserialize(IOEnv.TRACE)
 VARIABLES i, dead, bad, st
 vars == <<i, dead, bad, st>>
 St0 == [recs |-> 0, hists |-> 0, fields |-> 0, fits |-> 0, overflow_kept |-> 0, trunc |-> 0, trunc_left |-> 0, trunc_centre |-> 0, trunc_right |-> 0,
-        straddle |-> 0, zero_width |-> 0, multibyte_trunc |-> 0, wide |-> 0, wide_after_field |-> 0, wide_after_overflow |-> 0, bar_fields |-> 0, bar_fields_padded |-> 0, wide_trimmed |-> 0, big |-> 0, centre_odd |-> 0]
+        straddle |-> 0, zero_width |-> 0, multibyte_trunc |-> 0, wide |-> 0, wide_after_field |-> 0, wide_second_line |-> 0, narrow_terminal |-> 0, wide_after_overflow |-> 0, bar_fields |-> 0, bar_fields_padded |-> 0, wide_trimmed |-> 0, big |-> 0, centre_odd |-> 0]
 
 IsTrunc(r) == ~Fits(r.m, r.w) /\ r.tr
 (* the width of a wide_msg field is what the literals leave of the terminal width *)
-IsWide(r) == r.kind \in {"wide", "wide2"}
+IsWide(r) == r.kind \in {"wide", "wide2", "wide2l"}
 WidthOK(r) == ~IsWide(r) \/ (r.w = WideWidth(r.tw, r.pre, r.suf) /\ r.tr)
 (* kind "bar": [{bar:<al><W>}] - the field is W columns wide: floor(W / cw) progress clusters of cw columns each and blanks on the side(s) of the alignment *)
 RECURSIVE LeadBl(_, _)
@@ -49,7 +49,7 @@ Count(s, r) ==
               !.straddle = @ + B(IsTrunc(r) /\ \E lo \in Starts(Cols(r.m) - r.w, r.al) : HasStraddler(r.m, lo, lo + r.w)),
               !.zero_width = @ + B(IsTrunc(r) /\ HasZW(r.m)),
               !.multibyte_trunc = @ + B(IsTrunc(r) /\ \E j \in 1..Len(r.m) : r.m[j] = 233 \/ CW(r.m[j]) = 2),
-              !.wide = @ + B(IsWide(r)), !.wide_after_field = @ + B(r.kind = "wide2"), !.wide_after_overflow = @ + B(r.kind = "wide2" /\ Cols(r.pm) > r.pw),
+              !.wide = @ + B(IsWide(r)), !.wide_after_field = @ + B(r.kind = "wide2"), !.wide_second_line = @ + B(r.kind = "wide2l"), !.narrow_terminal = @ + B(~IsWide(r) /\ r.kind # "bar" /\ r.tw < r.w), !.wide_after_overflow = @ + B(r.kind = "wide2" /\ Cols(r.pm) > r.pw),
               !.bar_fields = @ + B(r.kind = "bar"), !.bar_fields_padded = @ + B(r.kind = "bar" /\ r.w % r.cw = 1),
               !.wide_trimmed = @ + B(IsWide(r) /\ r.suf = <<>> /\ r.panic = "" /\ Fits(r.m, r.w) /\ Len(r.out) < Len(r.pre) + Len(r.m) + (r.w - Cols(r.m))),
               !.big = @ + B(r.w >= 255),
